@@ -10,7 +10,8 @@ import segno
 
 TOP = ['theories/Props/C09.v', 'theories/Props/C09_netpbm.v', 'theories/Tie/TieTables.v',
        'theories/Tie/TieUtils.v', 'theories/Tie/TieUtilsIter.v', 'theories/Tie/TieUtilsVerbose.v',
-       'theories/Tie/TieWrCommon.v', 'theories/Tie/TieWrText.v', 'theories/Tie/TieWrNetpbm.v']
+       'theories/Tie/TieWrCommon.v', 'theories/Tie/TieWrText.v', 'theories/Tie/TieWrNetpbm.v', 'theories/Tie/TieColor.v', 'theories/Tie/TieWrColorFull.v',
+       'theories/Tie/TiePng.v']
 RULE = ('symbols of sizes 11..45 (and 177 in thorough) x scale {1,2,3,5,8} x border {0,1,2,4,default} x colour sets forcing every PNG colour type / '
         'bit depth and every PAM tuple type; every implementation file is parsed by the extracted INDEPENDENT reader of its format (PNG incl. CRCs; '
         'IDAT inflated with zlib and handed to the reader as the inflate function) and every pixel is compared with the extracted pixel specification; '
@@ -93,6 +94,9 @@ def run(ctx):
         combos = [(s, b) for s in scales for b in borders]
         if not ctx.thorough:
             combos = rng.sample(combos, 5)
+        elif size > 45:
+            # large symbols: a sample with small scales (a 191 x 8 pixel square per format and colour set is hours of reader time)
+            combos = rng.sample([(s, b) for s in (1, 2, 3) for b in borders], 4)
         if size <= 13:
             # every residue of (row width * bit depth) mod 8: the width is odd, so scales 4 / 8 / 16 hit the byte-aligned rows
             combos += [(4, 0), (8, 1), (16, 0)]
